@@ -145,6 +145,9 @@ func (p *PackageProgress) stageStreamData() error {
 		}()
 		offset, dataLen := stream.GetDataOffsetAndLen()
 		pack.Offset = offset
+		if old, ok := pack.OffsetRecord[offset]; ok {
+			pack.CurrentSize -= uint32(old) // 同一个偏移重传的 不能重复累加已接收的大小
+		}
 		pack.OffsetRecord[offset] = dataLen
 		pack.OffsetDataRecord[offset] = p.historyData[headLen : headLen+bodyLen]
 		pack.CurrentSize += uint32(bodyLen)
